@@ -46,6 +46,7 @@ def gen_effects():
            "From Coq Require Import List String.\nFrom Verif Require Import C14.Venom.\nImport ListNotations.\n"
            "Open Scope string_scope.\n\n")
     out += table("reads", EF.reads) + "\n" + table("writes", EF.writes)
+    out += "\n" + gen_baseptr()
     # the lookup helpers the passes use must be plain dict lookups with EMPTY default
     import inspect
     from vyper.venom.basicblock import IRInstruction
@@ -53,6 +54,73 @@ def gen_effects():
     if "effects.reads.get(self.opcode, effects.EMPTY)" not in src or "effects.writes.get(self.opcode, effects.EMPTY)" not in src:
         raise GenError("IRInstruction.get_read_effects/get_write_effects no longer read effects.reads/writes directly")
     return out
+
+
+BP_PROBE = """
+function probe {
+  probe:
+    %1 = sload 1
+    sstore 1, %1
+    %2 = tload 1
+    tstore 1, %2
+    %3 = mload 64
+    mstore 64, %3
+    mcopy 64, 96, 32
+    calldatacopy 64, 0, 32
+    %4 = sha3 64, 32
+    log 64, 32, 0
+    %5 = call 0, 1, 0, 64, 32, 64, 32
+    %6 = staticcall 0, 1, 64, 32, 64, 32
+    %7 = delegatecall 0, 1, 64, 32, 64, 32
+    %8 = create 0, 64, 32
+    %9 = create2 0, 64, 32, 7
+    %10 = add 1, 2
+    %11 = balance 1
+    %12 = extcodesize 1
+    %13 = returndatasize
+    returndatacopy 64, 0, 0
+    stop
+}
+"""
+
+
+def gen_baseptr():
+    """the second effect kernel the store-eliminating passes use: BasePtrAnalysis.get_read_location / get_write_location for
+    the STORAGE and TRANSIENT address spaces (EMPTY = `the instruction does not touch this space`), observed on the real
+    analysis for one probe instruction per opcode"""
+    from vyper.evm.address_space import STORAGE, TRANSIENT
+    from vyper.venom.analysis import IRAnalysesCache
+    from vyper.venom.analysis.base_ptr_analysis import BasePtrAnalysis
+    from vyper.venom.memory_location import MemoryLocation
+    from vyper.venom.parser import parse_venom
+    try:
+        ctx = parse_venom(BP_PROBE)
+        fn = list(ctx.functions.values())[0]
+        bp = IRAnalysesCache(fn).request_analysis(BasePtrAnalysis)
+        rd, wr = {}, {}
+        for inst in fn.entry.instructions:
+            r, w = [], []
+            for name, sp in (("STORAGE", STORAGE), ("TRANSIENT", TRANSIENT)):
+                if bp.get_read_location(inst, sp) != MemoryLocation.EMPTY:
+                    r.append(name)
+                if bp.get_write_location(inst, sp) != MemoryLocation.EMPTY:
+                    w.append(name)
+            if inst.opcode in rd and (rd[inst.opcode], wr[inst.opcode]) != (r, w):
+                raise GenError(f"two probes of {inst.opcode} disagree")
+            rd[inst.opcode], wr[inst.opcode] = r, w
+    except GenError:
+        raise
+    except Exception as e:  # noqa
+        raise GenError(f"cannot observe BasePtrAnalysis on the probe function: {type(e).__name__}: {e}")
+
+    def table(name, d):
+        body = ""
+        for k in sorted(d):
+            if d[k]:
+                body += f'  if String.eqb n "{k}" then [{"; ".join(d[k])}] else\n'
+        return f"Definition gen_{name} (n : string) : list eff :=\n{body}  [].\n"
+    probed = "[" + "; ".join(f'"{k}"' for k in sorted(rd)) + "]"
+    return (table("bp_reads", rd) + "\n" + table("bp_writes", wr) + f"\nDefinition gen_bp_probed : list string := {probed}.\n")
 
 
 def build_proofs(ctx):
